@@ -36,7 +36,7 @@ def explore_opts(params, tier):
     if params["group"] == "stop_order":
         return {"timeout_s": 10.0, "max_paths": 4, "norm_first": True, "path_budget_s": 240.0,
                 "engine_opts": {"cut_sites": ("minres", "_jit_minres_updates"), "symfloat_sites": ("minres",)}, "on_nonreplay": "inconclusive"}
-    return {"timeout_s": 10.0 if tier == "quick" else 300.0, "max_paths": 8, "norm_first": True, "path_budget_s": 180.0,
+    return {"timeout_s": 10.0 if tier == "quick" else 40.0, "max_paths": 8, "norm_first": True, "path_budget_s": 180.0,
             "engine_opts": {"cut_sites": ("minres", "_jit_minres_updates"), "item_whitelist": ("minres",)}, "on_nonreplay": "inconclusive"}
 
 
